@@ -93,9 +93,19 @@ func (p *Prog) watchRoles() *watchRoles {
 		} else if hasUpdate {
 			w.register = f
 		}
-		if hasNBSend {
+		// the fan-out is the non-blocking sender that ranges over the subscriber map; any other non-blocking send on an
+		// event channel is a matter for R4, not for role resolution
+		readsSubs := false
+		for _, b := range f.Blocks {
+			for _, ins := range b.Instrs {
+				if rg, ok := ins.(*ssa.Range); ok && isSubsMap(rg.X, w.subsField) {
+					readsSubs = true
+				}
+			}
+		}
+		if hasNBSend && readsSubs {
 			if w.fanout != nil && w.fanout != f {
-				brokenf("watch roles: two functions with a non-blocking send to subscribers (%s, %s)", funcName(w.fanout), funcName(f))
+				brokenf("watch roles: two functions with a non-blocking send over the subscriber map (%s, %s)", funcName(w.fanout), funcName(f))
 			}
 			w.fanout = f
 		}
